@@ -149,8 +149,11 @@ func (q *DateRangeQuery) Searcher(ctx context.Context, i index.IndexReader, m ma
 }
 
 func (q *DateRangeQuery) parseEndpoints() (*float64, *float64, error) {
-	min := math.Inf(-1)
-	max := math.Inf(1)
+	// an open end must cover every representable timestamp: date values are
+	// int64 nanoseconds, and the sortable int64 of +/-Inf lies INSIDE that
+	// range (timestamps after 2262-02-18 / before 1677-11-12 would be cut)
+	min := numeric.Int64ToFloat64(math.MinInt64)
+	max := numeric.Int64ToFloat64(math.MaxInt64)
 	if !q.Start.IsZero() {
 		if !isDatetimeCompatible(q.Start) {
 			// overflow
